@@ -55,6 +55,8 @@ class History:
     def call(self, caller, ep, pay=(), budget='-', snap=1, kind=None):
         """Append a call; returns the model's record for it."""
         toks = ep if isinstance(ep, list) else ep.split()
+        if self.round >= 2 ** 64:
+            self.round = 2 ** 64 - 1      # the block round is a u64: a timeline value of 2^64-1 was reached and passed
         rnd = self.rng.getrandbits(40)
         if self.fixed_rnd is not None:
             rnd = self.fixed_rnd
